@@ -119,6 +119,7 @@ def v1_module(rules):
         else:
             if name in enums:
                 res.append('#[derive(Clone, Copy, PartialEq, Eq, Debug)]\n' + s[m.start():j + 1])
+                gen += '\nunsafe impl Structural for %s {}\n' % name
             else:
                 res.append(s[m.start():j + 1])
                 gen += '\nimpl Clone for %s { #[verifier::external_body] fn clone(&self) -> (r: Self) ensures r == *self { unimplemented!() } }\n' % name
